@@ -178,6 +178,19 @@ def _g1():
         z3.And(k == i + sj, z3.ToReal(k) * q == a + e)
 
 
+@lemma("grid/multiple-not-rounded", ["C03", "C05", "C06"],
+       "a = i*q, q > 0  =>  rounding a/q gives i, and i*q == a (instance "
+       "x:=i of field/cancel-common-factor)")
+def _g1b():
+    i, k = I("i"), I("k")
+    q = R("q")
+    m, valid = _mode()
+    a = z3.ToReal(i) * q
+    inst = a / q == z3.ToReal(i)
+    return [valid, q > 0, inst, S.round_rel(a / q, m, k)], \
+        z3.And(k == i, z3.ToReal(k) * q == a)
+
+
 @lemma("grid/negation-and-abs-not-rounded", ["C03", "C05"],
        "a = i*q, q > 0  =>  -a and |a| are multiples of q (instance x:=i of "
        "field/cancel-common-factor)")
